@@ -177,6 +177,45 @@ theorem caddyfile_origins_never_empty (dflt : Bytes) (args : List Bytes)
   · rw [heq]
     exact (cfBlock_inv _ a0 a1 hb).2.1 (by rw [h0]; simp)
 
+-- ================================================================ Caddyfile → listen string → gate, end to end
+
+/-- the AdminConfig a Caddyfile `admin` option yields, as the model's configuration (origin entries
+    parsed by the net/url model) -/
+def cfgOfCaddyfile (a : CfAdmin) : AdminCfg :=
+  ⟨a.origins.map (fun l => l.map (fun raw => (⟨raw, urlParse raw⟩ : OriginEntry))), a.enforceOrigin, none⟩
+
+/-- adapter + start-up: the local endpoint a Caddyfile's `admin` option leads to (`none`: parse
+    error, `admin off`, or an unusable listen address) -/
+def caddyfileEndpoint (dflt : Bytes) (args : List Bytes) (block : Option (List (List Bytes)))
+    (ip : IpClass) (modulePats : List Bytes) : Option Handler :=
+  match parseOptAdmin dflt args block with
+  | some a => if a.disabled then none else localEndpoint (cfgOfCaddyfile a) a.listen dflt ip modulePats
+  | none => none
+
+/-- **`admin <name>:<port>` in a Caddyfile** (no block — the usual way to move the endpoint to a
+    LAN address): the three glue layers compose — `parseOptAdmin`, `parseAdminListenAddr`,
+    `newAdminHandler` — to an endpoint with the Host check on, whose allowed origins are the
+    defaults of that address, and on which a request with any other Host reaches no handler and
+    changes nothing. -/
+theorem caddyfile_admin_address_host_gate (H : Bytes → Req → σ → σ) (mux : Bytes → Bytes → Route)
+    (h ds dflt : Bytes) (ip : IpClass) (modulePats : List Bytes) (idx : Index) (fuel : Nat) (r : Req) (s : σ)
+    (hh : ∀ b ∈ h, plainHostByte b) (hne : h ≠ []) (hip : ip ≠ .unspecified)
+    (hdne : ds ≠ []) (hd : ∀ b ∈ ds, isDigitB b = true) (hle : digitsVal 10 ds ≤ 65535)
+    (hhost : ¬ HostAllowed ⟨none, false, none⟩ ⟨sTcp, h, digitsVal 10 ds, ip⟩ r.host) :
+    ∃ hd', caddyfileEndpoint dflt [h ++ colon :: ds] none ip modulePats = some hd' ∧ hd'.enforceHost = true ∧
+      Untouched (serveHTTP H mux hd' idx fuel r s) s := by
+  have hoff : h ++ colon :: ds ≠ sOff := by
+    intro e
+    have : colon ∈ sOff := by rw [← e]; simp
+    revert this; decide
+  have hnil : h ++ colon :: ds ≠ [] := by simp
+  have hparse : parseOptAdmin dflt [h ++ colon :: ds] none = some ⟨false, h ++ colon :: ds, false, none⟩ := by
+    simp [parseOptAdmin, hoff, blockLines, cfBlock, hnil]
+  obtain ⟨hd', h1, h2, h3⟩ := plain_listen_string_host_gate H mux ⟨none, false, none⟩ h ds dflt ip modulePats
+    idx fuel r s hh hne hip hdne hd hle hhost
+  refine ⟨hd', ?_, h2, h3⟩
+  simp [caddyfileEndpoint, hparse, cfgOfCaddyfile, h1]
+
 -- ================================================================ local endpoint: Origin
 
 /-- **origin gate** (handler level): with origin enforcement on, a request whose Origin (else
@@ -556,6 +595,12 @@ example : parseAdminListenAddr (str "[::1]:2019") [] = .ok sTcp (str "::1") 2019
 example : (localEndpoint exCfg (str ":2019") [] .notIP []).map (·.enforceHost) = some false
     ∧ (localEndpoint exCfg (str "unix//run/caddy.sock") [] .notIP []).map (·.enforceHost) = some false
     ∧ (localEndpoint exCfg (str "localhost:2019") [] .notIP []).map (·.enforceHost) = some true := by decide
+-- caddyfile_admin_address_host_gate: `admin 192.168.1.5:2019`; `admin off` and a typo give no endpoint
+example : (caddyfileEndpoint (str "d") [str "192.168.1.5:2019"] none .other []).map (·.enforceHost) = some true
+    ∧ caddyfileEndpoint (str "d") [sOff] none .other [] = none
+    ∧ caddyfileEndpoint (str "d") [str "localhost:2019"] (some [[str "enforce_origins"]]) .notIP [] = none
+    ∧ (caddyfileEndpoint (str "d") [str "localhost:2019"] (some [[sEnforceOrigin], [sOrigins, str "https://a.example:8443"]]) .notIP []).map
+        (fun hd => (hd.enforceOrigin, hd.allowed)) = some (true, [⟨str "https", str "a.example:8443"⟩]) := by decide
 -- caddyfile_*: `admin localhost:2019 { enforce_origin \n origins a b }`, `admin off`, `origins` without arguments
 example : parseOptAdmin (str "d") [str "localhost:2019"] (some [[sEnforceOrigin], [sOrigins, str "a", str "b"]])
       = some ⟨false, str "localhost:2019", true, some [str "a", str "b"]⟩
